@@ -289,7 +289,7 @@ def run_wf(ast, bseed, ctx, extra_classes, given_text):
         elif verdict == 'skip':
             skips.append(what)
         elif verdict == 'dev':
-            if n == 1 and obs[0][2][0] in ('ok', 'known') and obs[0][1][:2] != ob[:2]:
+            if n == 1 and obs[0][2][0] == 'ok':      # blank-free rendering agreed with the reference, this one does not
                 detail['blank_free_text'] = obs[0][0]
                 detail['blank_free_observed'] = show(obs[0][1])
                 what = 'blank-changes-outcome'
